@@ -324,7 +324,7 @@ func genC13(c *Ctx) {
 			total := 0
 			for _, l := range surviving {
 				_ = css.WriteTx(make([]byte, l))
-				total += l + share.VerifDelimLen(uint64(l))
+				total += l + len(uvarint(uint64(l))) // independent of the repository's own delimLen
 			}
 			rem := 0
 			if total > 0 {
@@ -342,6 +342,52 @@ func genC13(c *Ctx) {
 			c.mark("counter:" + ops)
 		}
 		c.count(fmt.Sprintf("counter_len_%d", k/4*4))
+	}
+	// large units: lengths log-uniform over every octave 2^7 .. 2^21 (a wrong width threshold anywhere is hit)
+	// plus the varint-width boundaries themselves, each history ending exactly on / one byte past a compact
+	// share boundary, where a one-byte disagreement between counter and writer changes the share count
+	for i := 0; i < 90*c.scale; i++ {
+		e := 7 + i%15
+		around := 1<<uint(e) + r.Intn(1<<uint(e))
+		switch i % 6 {
+		case 0:
+			around = 1 << uint(e)
+		case 1:
+			around = 1<<uint(e) - 1
+		}
+		var lens []int
+		prefix := 0
+		if r.Bool(50) {
+			l0 := compactLen(r, 3000)
+			lens = append(lens, l0)
+			prefix = l0 + len(uvarint(uint64(l0)))
+		}
+		lens = append(lens, alignedTxLen(prefix, around, i%2))
+		cnt := share.NewCompactShareCounter()
+		css := share.NewCompactShareSplitter(share.TxNamespace, share.ShareVersionZero)
+		ops := ""
+		total := 0
+		for j, l := range lens {
+			if j > 0 {
+				ops += ","
+			}
+			ops += "a" + s(l)
+			before := cnt.Size()
+			d := cnt.Add(l)
+			_ = css.WriteTx(make([]byte, l))
+			total += l + len(uvarint(uint64(l)))
+			rem := 0
+			if total >= 474 {
+				rem = (total - 474) % 478
+			} else {
+				rem = total
+			}
+			c.check(cnt.Size()-before == d && css.Count() == cnt.Size() && cnt.Size() == share.CompactSharesNeeded(uint32(total)) && cnt.Remainder() == rem,
+				"CompactShareCounter", "size/remainder/increment differ from a splitter fed the same large transactions", map[string]any{"ops": ops})
+		}
+		c.add("counter", ops)
+		c.mark("counter-large:" + ops)
+		c.count(fmt.Sprintf("counter_large_2^%d", e))
 	}
 	// prediction vs encoding for blobs (both share versions)
 	nss := blobNamespaces(r, 3)
